@@ -344,6 +344,8 @@ from .rules import effects  # noqa: E402
              "path whatever was asked before (two contracts whose blocks share ids, both orders, repeated); thorough tier: (T-HISTORY(runs)) "
              "whole runs with the real analyses give the same contexts and JSON results after another contract, with the detectors "
              "registered in the opposite order, and when run twice; (R-DEFAULT) no mutable default arguments. "
+             "(T-HISTORY(contracts)) every detector reports for each of two contracts loaded together what it reports for it alone; (T-EQN) "
+             "the live-in equations give the same answer whatever was asked before and in whatever order callees are listed; "
              "(T-ORDER(fixpoint)) the analyses give the same contexts when the function's block list and subroutine table are listed in the "
              "opposite order (5 programs with two subroutines, loops, early exits). Not decided: uniqueness of the fixpoint under every "
              "worklist order on every program; byte-identity of whole outputs.")
@@ -355,6 +357,8 @@ def c14(ctx, rep):
     _r(effects.rule_pure_lattice, ctx, rep)
     _r(detectors.rule_history, ctx, rep)
     _r(spelling.rule_fixpoint_order, ctx, rep)
+    _r(output_rules.rule_history_contracts, ctx, rep)
+    _r(generic_tables.rule_eqn, ctx, rep)
     _r(cmptables.rule_addr_store, ctx, rep)
     _r(cmptables.rule_int_store, ctx, rep)
     _r(cmptables.rule_universe_fresh, ctx, rep)
@@ -382,6 +386,7 @@ def c15(ctx, rep):
     _r(spelling.rule_padding_invariance, ctx, rep)
     _r(spelling.rule_move_subroutines, ctx, rep)
     _r(spelling.rule_spelled_programs, ctx, rep)
+    _r(spelling.rule_layout_pairs, ctx, rep)
 
 
 from .rules import regex_rules  # noqa: E402
